@@ -141,7 +141,13 @@ class RuntimeEngine:
 
             if len(args) < 2 or not is_filtered:
                 return_value = func(*args)
-                if self.covered is not None and len(args) >= 2:
+                if (
+                    self.covered is not None
+                    and len(args) >= 2
+                    and isinstance(args[0], str)
+                    and args[0] != ""
+                    and isinstance(args[1], int)
+                ):
                     r_file, iid = args[0], args[1]
                     if (
                         self.current_file is None
